@@ -27,6 +27,8 @@ type sched struct {
 	progress    int
 	switches    int
 	multi       bool
+	visible     int
+	sleep       map[*Thread]bool
 }
 
 type mutexState struct {
@@ -43,7 +45,7 @@ func (th *Thread) String() string { return fmt.Sprintf("T%d", th.id) }
 // runThreads runs fn as thread 0 under the scheduler; returns normally when the main thread
 // returns, panics (in the caller's goroutine) with whatever ended the path otherwise.
 func (x *Exec) runThreads(fn *ssa.Function) {
-	sc := &sched{yieldCh: make(chan thrMsg), ack: make(chan struct{})}
+	sc := &sched{yieldCh: make(chan thrMsg), ack: make(chan struct{}), sleep: map[*Thread]bool{}, progress: 1}
 	x.schedState = sc
 	main := x.threads[0]
 	main.fn = fn
@@ -56,8 +58,33 @@ func (x *Exec) runThreads(fn *ssa.Function) {
 				continue
 			}
 			alive++
+			if th.quiesce {
+				continue
+			}
 			if th.blocked == nil || th.blocked() {
 				enabled = append(enabled, th)
+			}
+		}
+		if len(enabled) == 0 {
+			// time passes: a thread in time.Sleep wakes up although nobody made progress, once
+			// per progress value (a poller that finds nothing and sleeps again is idle)
+			for _, th := range x.threads {
+				if !th.done && th.sleeping && th.freeWake != sc.progress-th.ownProgress {
+					th.freeWake = sc.progress - th.ownProgress
+					th.wake = true
+					enabled = append(enabled, th)
+					break
+				}
+			}
+		}
+		if len(enabled) == 0 {
+			// threads waiting for quiescence run when nothing else can
+			for _, th := range x.threads {
+				if !th.done && th.quiesce {
+					th.quiesce = false
+					enabled = append(enabled, th)
+					break
+				}
 			}
 		}
 		if len(enabled) == 0 {
@@ -83,6 +110,9 @@ func (x *Exec) runThreads(fn *ssa.Function) {
 		}
 		x.cur = pick
 		pick.blocked = nil
+		if len(x.schedTrace) < 400 {
+			x.schedTrace = append(x.schedTrace, fmt.Sprintf("T%d:%s", pick.id, pick.state))
+		}
 		pick.state = "running"
 		pick.resume <- struct{}{}
 		msg := <-sc.yieldCh
@@ -100,34 +130,67 @@ func (x *Exec) runThreads(fn *ssa.Function) {
 	}
 }
 
-func (x *Exec) pickThread(sc *sched, enabled []*Thread) *Thread {
-	if len(enabled) == 1 {
-		return enabled[0]
+func dependent(a, b *Thread) bool {
+	if !a.opKnown || !b.opKnown {
+		return true
 	}
-	// current thread first so that choice 0 = "no preemption"
+	if a.opKey != b.opKey {
+		return false
+	}
+	return a.opWrite || b.opWrite
+}
+
+// pickThread chooses the next thread among the enabled ones that are not in the sleep set
+// (sleep-set partial-order reduction: a thread whose pending operation was already explored from
+// this state and is independent of everything executed since stays asleep).
+func (x *Exec) pickThread(sc *sched, enabled []*Thread) *Thread {
+	var cands []*Thread
 	curEnabled := false
-	ord := make([]*Thread, 0, len(enabled))
 	for _, th := range enabled {
 		if th == x.cur {
 			curEnabled = true
 		}
 	}
-	if curEnabled {
-		ord = append(ord, x.cur)
-		if x.eng.cfg.PreemptBound >= 0 && sc.preemptions >= x.eng.cfg.PreemptBound {
-			return x.cur
-		}
+	if curEnabled && !sc.sleep[x.cur] {
+		cands = append(cands, x.cur)
 	}
 	for _, th := range enabled {
-		if th != x.cur {
-			ord = append(ord, th)
+		if th != x.cur && !sc.sleep[th] {
+			cands = append(cands, th)
 		}
 	}
-	i := x.choiceTagged(len(ord), "sched", func(i int) uint64 { return uint64(ord[i].id) })
-	if curEnabled && i != 0 {
-		sc.preemptions++
+	if len(cands) == 0 {
+		panic(pathEnd{"sleep-set"})
 	}
-	return ord[i]
+	k := 0
+	if len(cands) > 1 {
+		if curEnabled && cands[0] == x.cur && x.eng.cfg.PreemptBound >= 0 && sc.preemptions >= x.eng.cfg.PreemptBound {
+			k = 0
+		} else {
+			k = x.choiceTagged(len(cands), "sched", func(i int) uint64 { return uint64(cands[i].id) })
+			if curEnabled && cands[0] == x.cur && k != 0 {
+				sc.preemptions++
+			}
+		}
+	}
+	pick := cands[k]
+	if !x.eng.cfg.NoSleepSets {
+		// earlier candidates go to sleep if independent of the chosen operation; sleeping
+		// threads wake up when a dependent operation is executed
+		ns := map[*Thread]bool{}
+		for th := range sc.sleep {
+			if !dependent(th, pick) {
+				ns[th] = true
+			}
+		}
+		for j := 0; j < k; j++ {
+			if !dependent(cands[j], pick) {
+				ns[cands[j]] = true
+			}
+		}
+		sc.sleep = ns
+	}
+	return pick
 }
 
 // choiceTagged is choice() but records a caller-defined value in the replay log.
@@ -199,13 +262,19 @@ func (x *Exec) spawn(fr *frame, instr *ssa.Go, fn Value, args []Value) {
 }
 
 // yield is a scheduling point before a visible operation of the current thread.
-func (x *Exec) yield(fr *frame, what string) {
+func (x *Exec) yield(fr *frame, what string) { x.yieldOp(fr, what, nil, true) }
+
+// yieldOp: scheduling point before a visible operation on the object `key` (nil = unknown:
+// dependent with everything); write=false for pure reads (two reads of one object commute).
+func (x *Exec) yieldOp(fr *frame, what string, key interface{}, write bool) {
 	sc := x.schedState
-	if sc == nil || !sc.multi {
+	if sc == nil || !sc.multi || x.atomicDepth > 0 {
 		return
 	}
 	th := x.cur
 	th.state = what
+	th.opKey, th.opWrite, th.opKnown = key, write, key != nil
+	sc.visible++
 	sc.yieldCh <- thrMsg{th: th, kind: "yield"}
 	<-th.resume
 	if th.kill {
@@ -233,6 +302,9 @@ func (x *Exec) block(fr *frame, what string, pred func() bool) {
 func (x *Exec) progress() {
 	if x.schedState != nil {
 		x.schedState.progress++
+		if x.cur != nil {
+			x.cur.ownProgress++
+		}
 	}
 }
 
@@ -240,7 +312,7 @@ func (x *Exec) progress() {
 
 func (x *Exec) chanSend(fr *frame, c Value, v Value) {
 	ch := c.(*Chan)
-	x.yield(fr, "chan send")
+	x.yieldOp(fr, "chan send", ch, true)
 	if ch == nil {
 		x.block(fr, "send on nil chan", func() bool { return false })
 	}
@@ -263,7 +335,7 @@ func (x *Exec) chanSend(fr *frame, c Value, v Value) {
 
 func (x *Exec) chanRecv(fr *frame, c Value, commaOk bool, t types.Type) Value {
 	ch := c.(*Chan)
-	x.yield(fr, "chan recv")
+	x.yieldOp(fr, "chan recv", ch, ch != nil && (ch.cap > 0 || len(ch.buf) > 0))
 	if ch == nil {
 		x.block(fr, "recv on nil chan", func() bool { return false })
 	}
@@ -293,7 +365,7 @@ func (x *Exec) chanRecv(fr *frame, c Value, commaOk bool, t types.Type) Value {
 
 func (x *Exec) chanClose(fr *frame, c Value) {
 	ch := c.(*Chan)
-	x.yield(fr, "chan close")
+	x.yieldOp(fr, "chan close", ch, true)
 	if ch == nil || ch.closed {
 		panic(targetPanic{v: Iface{}, desc: "close of nil or closed channel", pos: x.posOf(fr.curInstr)})
 	}
@@ -302,7 +374,17 @@ func (x *Exec) chanClose(fr *frame, c Value) {
 }
 
 func (x *Exec) selectStmt(fr *frame, instr *ssa.Select) Value {
-	x.yield(fr, "select")
+	var selKey interface{}
+	if len(instr.States) == 1 {
+		if ch, ok := fr.get(instr.States[0].Chan).(*Chan); ok && ch != nil && !instr.Blocking && instr.States[0].Dir == types.RecvOnly && ch.cap == 0 {
+			selKey = ch // non-blocking receive on a close-only channel: a pure read of its state
+		}
+	}
+	if selKey != nil {
+		x.yieldOp(fr, "select", selKey, false)
+	} else {
+		x.yield(fr, "select")
+	}
 	ready := func() int {
 		for i, st := range instr.States {
 			ch := fr.get(st.Chan).(*Chan)
@@ -364,7 +446,7 @@ func registerSchedIntrinsics() {
 		x := fr.x
 		p := a[0].(*Value)
 		m := x.mutexOf(p)
-		x.yield(fr, "Mutex.Lock")
+		x.yieldOp(fr, "Mutex.Lock", p, true)
 		if m.locked {
 			if x.schedState == nil || len(x.threads) == 1 {
 				x.violate("deadlock", "Lock of a mutex already held by the only thread", x.posOf(callerInstr(fr)))
@@ -383,7 +465,7 @@ func registerSchedIntrinsics() {
 		if !m.locked {
 			panic(targetPanic{v: Iface{}, desc: "sync: unlock of unlocked mutex", pos: x.posOf(callerInstr(fr))})
 		}
-		x.yield(fr, "Mutex.Unlock")
+		x.yieldOp(fr, "Mutex.Unlock", a[0].(*Value), true)
 		m.locked = false
 		x.cur.held--
 		x.progress()
@@ -398,7 +480,7 @@ func registerSchedIntrinsics() {
 	intrinsics["(*sync.Mutex).TryLock"] = func(fr *frame, a []Value) Value {
 		x := fr.x
 		m := x.mutexOf(a[0].(*Value))
-		x.yield(fr, "Mutex.TryLock")
+		x.yieldOp(fr, "Mutex.TryLock", a[0].(*Value), true)
 		if m.locked {
 			return x.f.Bool(false)
 		}
@@ -446,6 +528,7 @@ func registerSchedIntrinsics() {
 		th.held--
 		c.waiters[th] = true
 		x.progress()
+		th.opKey, th.opWrite, th.opKnown = interface{}(condL(x, p)), true, true
 		x.block(fr, "Cond.Wait", func() bool { return !c.waiters[th] })
 		if m.locked {
 			x.block(fr, "Cond.Wait(relock)", func() bool { return !m.locked })
@@ -458,7 +541,7 @@ func registerSchedIntrinsics() {
 	intrinsics["(*sync.Cond).Broadcast"] = func(fr *frame, a []Value) Value {
 		x := fr.x
 		c := condOf(x, a[0].(*Value))
-		x.yield(fr, "Cond.Broadcast")
+		x.yieldOp(fr, "Cond.Broadcast", a[0].(*Value), true)
 		for th := range c.waiters {
 			delete(c.waiters, th)
 		}
@@ -468,7 +551,7 @@ func registerSchedIntrinsics() {
 	intrinsics["(*sync.Cond).Signal"] = func(fr *frame, a []Value) Value {
 		x := fr.x
 		c := condOf(x, a[0].(*Value))
-		x.yield(fr, "Cond.Signal")
+		x.yieldOp(fr, "Cond.Signal", a[0].(*Value), true)
 		// wake the lowest-id waiter (deterministic)
 		var best *Thread
 		for th := range c.waiters {
@@ -491,7 +574,7 @@ func registerSchedIntrinsics() {
 	}
 	intrinsics["(*sync.WaitGroup).Done"] = func(fr *frame, a []Value) Value {
 		x := fr.x
-		x.yield(fr, "wg.Done")
+		x.yieldOp(fr, "wg.Done", a[0].(*Value), true)
 		x.wgs[a[0].(*Value)]--
 		x.progress()
 		return nil
@@ -499,7 +582,7 @@ func registerSchedIntrinsics() {
 	intrinsics["(*sync.WaitGroup).Wait"] = func(fr *frame, a []Value) Value {
 		x := fr.x
 		p := a[0].(*Value)
-		x.yield(fr, "wg.Wait")
+		x.yieldOp(fr, "wg.Wait", p, false)
 		if x.wgs[p] > 0 {
 			x.block(fr, "wg.Wait", func() bool { return x.wgs[p] <= 0 })
 		}
@@ -515,6 +598,41 @@ func registerSchedIntrinsics() {
 		x.call(fr, fr.curInstr, a[1], nil)
 		return nil
 	}
+	intrinsics[zz+"Quiesce"] = func(fr *frame, a []Value) Value {
+		x := fr.x
+		sc := x.schedState
+		if sc == nil || !sc.multi {
+			return nil
+		}
+		th := x.cur
+		th.quiesce = true
+		th.state = "Quiesce"
+		sc.yieldCh <- thrMsg{th: th, kind: "yield"}
+		<-th.resume
+		if th.kill {
+			panic(threadKill{})
+		}
+		return nil
+	}
+	intrinsics["log.Println"] = func(fr *frame, a []Value) Value { fr.x.logPrints++; return nil }
+	intrinsics["log.Printf"] = func(fr *frame, a []Value) Value { fr.x.logPrints++; return nil }
+	intrinsics[zz+"LogPrints"] = func(fr *frame, a []Value) Value { return fr.x.f.Const(64, uint64(fr.x.logPrints)) }
+	// atomic.Value: the stored interface lives in a side table keyed by the Value's address
+	intrinsics["(*sync/atomic.Value).Load"] = func(fr *frame, a []Value) Value {
+		x := fr.x
+		x.yieldOp(fr, "atomic.Value.Load", a[0].(*Value), false)
+		if v, ok := x.atomicVals[a[0].(*Value)]; ok {
+			return v
+		}
+		return Iface{}
+	}
+	intrinsics["(*sync/atomic.Value).Store"] = func(fr *frame, a []Value) Value {
+		x := fr.x
+		x.yieldOp(fr, "atomic.Value.Store", a[0].(*Value), true)
+		x.atomicVals[a[0].(*Value)] = a[1]
+		x.progress()
+		return nil
+	}
 	intrinsics["time.Sleep"] = func(fr *frame, a []Value) Value {
 		x := fr.x
 		sc := x.schedState
@@ -526,8 +644,11 @@ func registerSchedIntrinsics() {
 		if x.eng.cfg.MaxSleeps > 0 && th.sleeps > x.eng.cfg.MaxSleeps {
 			abortf("thread slept more than %d times (unwinding bound)", x.eng.cfg.MaxSleeps)
 		}
-		at := sc.progress
-		x.block(fr, "time.Sleep", func() bool { return sc.progress != at })
+		at := sc.progress - th.ownProgress
+		th.sleeping, th.wake = true, false
+		th.opKnown = false
+		x.block(fr, "time.Sleep", func() bool { return sc.progress-th.ownProgress != at || th.wake })
+		th.sleeping = false
 		return nil
 	}
 
@@ -540,7 +661,7 @@ func registerSchedIntrinsics() {
 			if !ok || p == nil {
 				x.runtimePanic(fr, "invalid memory address or nil pointer dereference (atomic)")
 			}
-			x.yield(fr, "atomic."+name)
+			x.yieldOp(fr, "atomic."+name, p, write)
 			x.atomicOps++
 			r := op(fr, p, a)
 			if write {
